@@ -21,6 +21,9 @@ Example tie_C08_decay_amplitudes :
   /\ einsum_numeric_calculate_pulse_correlation_filter_function = ["gako,hbko->ghabo"; "gako,hblo->ghabklo"]
   /\ Src.h_numeric_calculate_pulse_correlation_filter_function = Expected.h_numeric_calculate_pulse_correlation_filter_function
   /\ Src.h_pulse_sequence_PulseSequence_is_cached = Expected.h_pulse_sequence_PulseSequence_is_cached
+  /\ Src.h_pulse_sequence_PulseSequence_cleanup = Expected.h_pulse_sequence_PulseSequence_cleanup
+  /\ Src.h_pulse_sequence_PulseSequence_get_filter_function = Expected.h_pulse_sequence_PulseSequence_get_filter_function
+  /\ Src.h_pulse_sequence_PulseSequence_cache_filter_function = Expected.h_pulse_sequence_PulseSequence_cache_filter_function
   /\ Src.h_pulse_sequence_PulseSequence_get_pulse_correlation_control_matrix = Expected.h_pulse_sequence_PulseSequence_get_pulse_correlation_control_matrix
   /\ Src.h_pulse_sequence_PulseSequence_get_pulse_correlation_filter_function = Expected.h_pulse_sequence_PulseSequence_get_pulse_correlation_filter_function.
 Proof. repeat split; reflexivity. Qed.
